@@ -15,6 +15,7 @@ def _(number: int, alignment: int) -> int:
     ensures(result >= number, label="ge")
     ensures(result % alignment == 0, label="multiple")
     ensures(result - number < alignment, label="minimal")
+    ensures(implies(number % alignment == 0, result == number), label="fixpoint-on-multiples")
     pure()
     cover(number=5, alignment=4)
 
@@ -47,15 +48,21 @@ def _(self: Obj(BinaryPattern, _pattern=OneOf("zeros", "ones", "inc")), size: Na
     sample(size=Range(0, 5000))
 
 
+def pad_byte(padding, k):
+    """k-th padding byte for the padding argument of align_block."""
+    return ite(typed(padding, BinaryPattern), ite(padding._pattern == "ones", 255, ite(padding._pattern == "inc", k % 256, 0)), 0)
+
+
 @contract("spsdk.utils.misc:align_block")
 def _(data: Union[bytes, bytearray], alignment: int,
-      padding: Union[OneOf(None, 0, "zeros"), Obj(BinaryPattern, _pattern=Const("zeros"))]) -> bytes:
+      padding: Union[OneOf(None, 0, "zeros"), Obj(BinaryPattern, _pattern=OneOf("zeros", "ones", "inc"))]) -> bytes:
     # code rejects alignment < 0 itself and alignment == 0 through align(): the statement is "<= 0 is an error"
     raises(SPSDKError, alignment <= 0)
     ensures(len(result) >= len(data) and len(result) % alignment == 0 and len(result) - len(data) < alignment,
             label="aligned-length")
     ensures(result[: len(data)] == data, label="prefix-kept")
-    ensures(forall(len(data), len(result), lambda k: result[k] == 0), label="zero-padding")
+    ensures(forall(len(data), len(result), lambda k: result[k] == pad_byte(padding, k - len(data))), label="padding-pattern")
+    ensures(implies(len(data) % alignment == 0, len(result) == len(data)), label="aligned-input-unchanged")
     pure()
     sample(alignment=Range(-2, 5000))
 
